@@ -27,7 +27,7 @@ MANIFEST = {
 # ---- relay side ---------------------------------------------------------------------------------------------------
 class RelayBP(relayh.Relay):
   def on_new_state(self):
-    v = self.quiesce()
+    v = relayh.Relay.on_new_state(self)      # quiesce + delivery liveness
     if v:
       return v
     if self.state.metricReceiversPaused:
@@ -104,8 +104,7 @@ class CacheBP(thrx.Harness):
     self.wire(settings)
     events.metricReceived.addHandler(self._store)
     self.cache = carbon.cache.MetricCache()
-    self.lock = thrx.SchedLock(s, 'cache')
-    self.cache.lock = self.lock
+    self.lock = thrx.replace_locks(self.cache, s)
     self.state = state
     self.settings = settings
     self.events = events
@@ -186,6 +185,8 @@ class CacheBP(thrx.Harness):
       except Exception as e:   # noqa
         self.exc.append(repr(e))
         break
+      if self.p.get('partial') and _ + 1 >= self.p['drains']:
+        break
       if m is None:
         idle += 1
         if idle >= 2 and self.sched.threads[0].done:
@@ -206,11 +207,13 @@ class CacheBP(thrx.Harness):
       return None
     if self.exc:
       return ('exception', 'raised %s' % self.exc[0])
-    # quiescence: the reactor thread is done; let the writer drain whatever is left (explorer thread)
-    for _ in range(10):
-      if not self.cache:
-        break
-      self.cache.drain_metric()
+    # quiescence: the reactor thread is done; let the writer drain whatever is left (explorer thread) -
+    # unless this job stops the writer early on purpose (the cache then rests somewhere between empty and full)
+    if not self.p.get('partial'):
+      for _ in range(10):
+        if not self.cache:
+          break
+        self.cache.drain_metric()
     size = self.cache.size
     paused = self.state.metricReceiversPaused
     low = self.p['max_cache'] * 0.95
@@ -242,6 +245,11 @@ def cache_jobs(ctx):
         reactor = [('line', 'a', 1), ('line', 'a', 2), ('connect',), ('line', 'b', 1), ('line', 'c', 1)]
       b = deep if (strat == 'sorted' and mc <= 2) else 1
       out.append(({'max_cache': mc, 'strategy': strat, 'reactor': reactor, 'drains': 8}, (b, 0)))
+      if mc == 3 and strat == 'sorted':
+        # the writer stops after 1 / 2 drains: the cache rests partially filled (below the watermark or not)
+        fill = [('line', 'a', 1), ('line', 'b', 1), ('line', 'c', 1), ('line', 'd', 1)]
+        for nd in (1, 2, 3):
+          out.append(({'max_cache': mc, 'strategy': strat, 'reactor': fill, 'drains': nd, 'partial': True}, (1, 0)))
       if ctx.thorough and strat == 'sorted':
         out.append(({'max_cache': mc, 'strategy': strat, 'reactor': reactor[:3], 'drains': 6,
                      'opcode': ('_check_available_space', 'store', 'pop')}, (1, 0)))
